@@ -170,17 +170,23 @@ def build (s : Str) (minor : Nat) (m : MMap) : Option Obj := do
   let e ← environmentalScore c minor
   pure { vector := s, minor := minor, orig := m, metrics := full, base := b, temporal := t, env := e }
 
-/-- `CVSS3(vector)` -/
-def construct (s : Str) : Except Err Obj :=
+/-- `parse_vector()` followed by `check_mandatory()`: (minor version, metrics) -/
+def parse (s : Str) : Except Err (Nat × MMap) :=
   match parseWithPrefix tables prefixes s with
   | .error e => .error e
   | .ok (i, m) =>
     match checkMandatory tables m with
     | .error e => .error e
-    | .ok _ =>
-      match build s i m with
-      | none => .error .foreign
-      | some o => .ok o
+    | .ok _ => .ok (i, m)
+
+/-- `CVSS3(vector)` -/
+def construct (s : Str) : Except Err Obj :=
+  match parse s with
+  | .error e => .error e
+  | .ok (i, m) =>
+    match build s i m with
+    | none => .error .foreign
+    | some o => .ok o
 
 def Obj.scores (o : Obj) : List (Option Rat) := [some o.base, some o.temporal, some o.env]
 
